@@ -154,13 +154,14 @@ type c13Cfg struct {
 	parent     string // "" = no WithContext; "alive" = WithContext(parent), parent outlives Shutdown; "ended" = the parent context ends right before Shutdown is called
 	panicInact bool   // the application's inactive handler fails (panics) on every channel
 	idle       bool   // every pipeline starts with a read-idle and a write-idle handler (long periods: they never fire)
+	closeErr   bool   // every acceptor's Close reports an error (and closes all the same)
 	dupStart   bool   // the application starts listener 0 a second time (Sync on a listener whose accept loop is running: refused)
 	syncStall  bool   // channels are synchronous-write channels and one client channel has a write stalled inside its transport when Shutdown runs
 }
 
 func (g c13Cfg) String() string {
-	return fmt.Sprintf("L=%d preInject=%d preConnect=%d concInject=%d concConnect=%d closeSome=%v lclose=%d gate=%s until=%s lateAsync=%v relisten=%v acceptErr=%v failWrite=%v wrap=%v parentContext=%q inactiveHandlerPanics=%v idleHandlers=%v syncChannelsWithStalledWrite=%v secondStartOfListener0=%v",
-		g.listeners, g.preInject, g.preConnect, g.concInject, g.concConn, g.closeSome, g.lclose, g.gate, g.until, g.lateAsync, g.relisten, g.acceptErr, g.failWrite, g.wrap != nil, g.parent, g.panicInact, g.idle, g.syncStall, g.dupStart)
+	return fmt.Sprintf("L=%d preInject=%d preConnect=%d concInject=%d concConnect=%d closeSome=%v lclose=%d gate=%s until=%s lateAsync=%v relisten=%v acceptErr=%v failWrite=%v wrap=%v parentContext=%q inactiveHandlerPanics=%v idleHandlers=%v syncChannelsWithStalledWrite=%v secondStartOfListener0=%v acceptorCloseFails=%v",
+		g.listeners, g.preInject, g.preConnect, g.concInject, g.concConn, g.closeSome, g.lclose, g.gate, g.until, g.lateAsync, g.relisten, g.acceptErr, g.failWrite, g.wrap != nil, g.parent, g.panicInact, g.idle, g.syncStall, g.dupStart, g.closeErr)
 }
 
 var c13Gates = []string{"none", "loop-start", "in-listen", "before-accept", "child-init", "active", "client-init", "activate-during-closeall", "handshake-read-in-active", "panic-in-active", "late-activation-handshake-read"}
@@ -201,6 +202,7 @@ func runC13(c *core.Ctx) {
 			idle:       rng.Intn(3) == 0,
 			syncStall:  rng.Intn(8) == 0,
 			dupStart:   rng.Intn(6) == 0,
+			closeErr:   rng.Intn(5) == 0,
 		}
 		if rng.Intn(4) == 0 {
 			cfg.lclose = rng.Intn(cfg.listeners)
@@ -253,6 +255,9 @@ func c13Trial(c *core.Ctx, id string, cfg c13Cfg) {
 		}
 	}
 	f := &mon.MockFactory{Wrap: cfg.wrap}
+	if cfg.closeErr {
+		f.AcceptorCloseErr = errors.New("mock acceptor: close: unlink failed")
+	}
 	ex := &c13Exec{}
 	var probesMu sync.Mutex
 	var probes []*c13Probe
